@@ -361,7 +361,9 @@ func (self *BinaryConv) doRecurse(ctx context.Context, s string, jp int, desc *t
 				if nt == json.EndObj {
 					// notice: when option TracebackRequredOrRootFields enabled, we should always WriteXXField
 					traceback := self.opts.TracebackRequredOrRootFields && depth == 0
-					if err := bm.HandleRequires(desc.Struct(), self.opts.WriteRequireField || traceback, self.opts.WriteDefaultField || traceback, self.opts.WriteOptionalField || traceback, func(f *thrift.FieldDescriptor) error {
+					// a required field below the root is traced back as well (see the handler): it must reach the handler,
+					// which reports the missing field if the request has no value for it either
+					if err := bm.HandleRequires(desc.Struct(), self.opts.WriteRequireField || self.opts.TracebackRequredOrRootFields, self.opts.WriteDefaultField || traceback, self.opts.WriteOptionalField || traceback, func(f *thrift.FieldDescriptor) error {
 						// special case: traceback http values for root of required fields
 						var val string
 						var enc meta.Encoding
